@@ -1566,7 +1566,9 @@ def _gen_function(kv, sections, repo, res: UnitResult, variant) -> list:
                 raise ExtractError("anchor lost: closure #%d in %s" % (arg, fid))
             b1, b2, bsx, be = closures[arg - 1]
             if btoks[bs[bsx]].text != "{":
-                raise ExtractError("closure #%d in %s has an expression body (needs block)" % (arg, fid))
+                # expression-bodied closure: wrap the body in a block so that the contract can precede it
+                lab = lab + [GenLine("{", ("gen", "closure-block"))]
+                ins_at.append((btoks[bs[be]].end, [GenLine("}", ("gen", "closure-block"))]))
             ins_at.append((btoks[bs[bsx]].start, lab))
         elif kind == "before":
             ix = find_line(arg[0], arg[1])
